@@ -132,7 +132,29 @@ class QGrammar:
             return P.op(env.ctx, "yield")
         return self.emit_other(P, kind, a, b, c, bodies, env)
 
+    def suspendable(self, P, env):
+        return [q for q in sorted(P.queues) if P.queues[q]["kind"] in (0, 1)]
+
     def emit_other(self, P, kind, a, b, c, bodies, env):
+        if kind == "suspend":
+            qs = self.suspendable(P, env)
+            if not qs or len(P.open_tokens) >= 48:
+                return None
+            q = qs[a % len(qs)]
+            t = P.tok()
+            o = P.op(env.ctx, "suspend", a=q, b=t, q=q, thread=env.thread, in_item=env.in_item, onq=env.onq)
+            P.open_tokens.append((t, q, "resume"))
+            # optionally resume right away / after a little work from the same context (a tight suspend-resume pair)
+            if b % 3 == 0:
+                if b % 2:
+                    P.op(env.ctx, "work", a=(c % 8) * 20)
+                P.op(env.ctx, "resume", a=q, b=t, q=q, thread=env.thread)
+            return o
+        if kind == "resume":
+            if not P.open_tokens:
+                return None
+            t, q, k = P.open_tokens[a % len(P.open_tokens)]
+            return P.op(env.ctx, k, a=q, b=t, q=q, thread=env.thread)
         return None
 
     def emit_submit(self, P, kind, q, b, c, bodies, env, group=0):
@@ -145,7 +167,9 @@ class QGrammar:
         if kind in e3.SYNC_KINDS:
             nrank = env.rank if P.queues[q]["kind"] == 2 else max(env.rank, r)
         else:
-            nrank = -1 if P.queues[q]["kind"] == 2 else r
+            # an item may later await this child: what the child's body may synchronously enter must respect the
+            # rank its (possibly waiting) parent holds, so a child sent to a global queue inherits the parent's rank
+            nrank = (env.rank if env.in_item else -1) if P.queues[q]["kind"] == 2 else r
         benv = Env(bctx, nrank, env.depth + 1, env.thread, True, onq=q)
         P.op(bctx, "work", a=(c % 8) * 30, b=1 if (c >> 3) % 4 == 0 else 0)
         if bodies and env.depth < self.max_depth and (b >> 1) % 3 != 0:
@@ -159,6 +183,7 @@ class QGrammar:
     def compile(self, recipe, kind="F1", cpu=0, tier="quick"):
         h, threads, bodies = recipe[0], recipe[1], recipe[2]
         P = e3.Program()
+        P.open_tokens = []
         P.cfg["payload"] = self.payload
         perturbation_cfg(P, h, kind, cpu)
         self.build_graph(P, h)
@@ -315,3 +340,157 @@ def order_verdicts(prog, hist, queue_filter, label):
                 if len(out) > 3:
                     return out
     return out
+
+
+# ---------------------------------------------------------------- full queue graph (C01, C03, C05, C17, C18)
+GQ_DEFAULT, GQ_UTILITY, GQ_OVERCOMMIT = 20, 21, 22
+
+
+def build_full_graph(P, h, base=10, max_custom=6, allow_workloop=True, serial_bottom=False, inactive=False):
+    n = 1 + h[base] % max_custom
+    P.queue(GQ_DEFAULT, 2)
+    P.queue(GQ_UTILITY, 2, qos=2)
+    P.queue(GQ_OVERCOMMIT, 2, flags=4)
+    for i in range(n):
+        b = h[base + 1 + i]
+        kind = 0 if (b & 1) == 0 else 1
+        if i == 0 and serial_bottom:
+            kind = 0
+        if i == 0 and allow_workloop and b % 11 == 10:
+            kind = 4
+        tsel = (b >> 1) % 4
+        target, flags = -1, 0
+        if i > 0 and (tsel >= 2 or serial_bottom):
+            target = (b >> 3) % i
+            flags = 2 if (b >> 6) & 1 else 0
+        elif tsel == 1 and kind != 4:
+            target = [GQ_DEFAULT, GQ_UTILITY, GQ_OVERCOMMIT][(b >> 3) % 3]
+            if kind == 0 and target == GQ_OVERCOMMIT:
+                pass
+            flags = 2 if (b >> 6) & 1 else 0
+            if kind == 1 and target == GQ_OVERCOMMIT:
+                target = GQ_DEFAULT
+        if inactive and kind != 4 and (b >> 7) & 1:
+            flags |= 1
+        qos = [0, 0, 0, 2, 4][(b >> 4) % 5] if kind != 4 else 0
+        P.queue(i, kind, target, flags=flags, qos=qos)
+    for q in range(n):
+        bt = P.bottom(q)
+        if P.queues[bt]["kind"] in (0, 3, 4):
+            P.queues[q]["chain"] = bt
+        elif P.queues[q]["kind"] == 0:
+            P.queues[q]["chain"] = q
+    P.custom = list(range(n))
+    shape = "depth=%d" % max(len([x for x in P.chain_of(q) if x < 20]) for q in range(n))
+    P.features.add(shape)
+    if any(P.queues[q]["kind"] == 4 for q in range(n)):
+        P.features.add("workloop")
+    return n
+
+
+def serial_group(P, q):
+    """the serialised group an item submitted to q belongs to, as far as C03 promises: the bottom of its
+    hierarchy if that is a serial queue, the main queue or a workloop; else None"""
+    if P.queues[q]["kind"] == 2:
+        return None
+    bt = P.bottom(q)
+    return bt if P.queues[bt]["kind"] in (0, 3, 4) else None
+
+
+class FullGrammar(QGrammar):
+    thread_kinds = [("async", 5), ("basync", 1), ("sync", 3), ("bsync", 1), ("aaw", 1), ("baaw", 1), ("gasync", 2), ("await", 5), ("work", 1),
+                    ("suspend", 1), ("resume", 1), ("tpl_nowait", 1)]
+    body_kinds = [("work", 3), ("async", 3), ("sync", 2), ("bsync", 1), ("aaw", 1), ("gasync", 1), ("await", 1)]
+    max_depth = 2
+    allow_workloop = True
+    serial_bottom = False
+    pool_template = False
+
+    def build_graph(self, P, h):
+        build_full_graph(P, h, allow_workloop=self.allow_workloop, serial_bottom=self.serial_bottom)
+        P.groups = [0]
+        P.pool_done = False
+
+    def targets(self, P, env):
+        return P.custom + [GQ_DEFAULT, GQ_UTILITY, GQ_OVERCOMMIT]
+
+    def emit_other(self, P, kind, a, b, c, bodies, env):
+        if kind == "tpl_nowait" and not env.in_item:
+            # dispatch_async must return without waiting for any item: the submitting thread holds the only key
+            # to a gate the queue is blocked on (hard gate: never opened by the janitor => a waiting async is a stuck witness)
+            if self.pool_template and P.cfg_active_cpus <= 2 and not P.pool_done and a % 4 == 0:
+                return self.emit_pool(P, a, b, c, env)
+            tg = self.targets(P, env)
+            q = tg[a % len(tg)]
+            g = P.gate()
+            P.extra.append("hardgate %d" % g)
+            first = P.op(env.ctx, "async", a=q, b=b & 1, q=q, thread=env.thread, depth=env.depth, tpl="nowait")
+            P.op(P.body(first), "gate", a=g)
+            for i in range(1 + c % 3):
+                o = P.op(env.ctx, "basync" if (c >> 2) % 3 == 0 and P.queues[q]["kind"] != 2 else "async", a=q, b=(b >> 1) & 1, q=q, thread=env.thread, depth=env.depth, tpl="nowait")
+                P.op(P.body(o), "work", a=20)
+                env.pending.append(o)
+            P.op(env.ctx, "open", a=g)
+            env.pending.append(first)
+            P.features.add("tpl-nowait")
+            return first
+        return QGrammar.emit_other(self, P, kind, a, b, c, bodies, env)
+
+    def emit_pool(self, P, a, b, c, env):
+        # every pool thread of the default global queue blocks in an item that waits for a LATER item of the same queue
+        P.pool_done = True
+        g = P.gate()
+        P.extra.append("hardgate %d" % g)
+        k = P.cfg_active_cpus + (c % 2)
+        first = None
+        for i in range(k):
+            o = P.op(env.ctx, "async", a=GQ_DEFAULT, b=b & 1, q=GQ_DEFAULT, thread=env.thread, depth=env.depth, tpl="pool")
+            P.op(P.body(o), "gate", a=g)
+            env.pending.append(o)
+            first = first or o
+        op = P.op(env.ctx, "async", a=GQ_DEFAULT, b=0, q=GQ_DEFAULT, thread=env.thread, depth=env.depth, tpl="pool-opener")
+        P.op(P.body(op), "open", a=g)
+        env.pending.append(op)
+        P.features.add("tpl-pool-exhaustion")
+        return first
+
+    def emit_submit(self, P, kind, q, b, c, bodies, env, group=0):
+        return QGrammar.emit_submit(self, P, kind, q, b, c, bodies, env, group=0)
+
+
+def queue_activity_classes(prog, hist):
+    """measured facts used by the non-triviality rules"""
+    call, ret, start, end, starts, ends = hist.index()
+    byq = {}
+    for o in prog.order:
+        if o.kind in e3.SUBMIT_KINDS and o.id in call:
+            byq.setdefault(o.a, []).append(o)
+    flips_ok = waiter = False
+    multi_thread_q = 0
+    for q, ops in byq.items():
+        threads = {o.meta.get("thread") for o in ops}
+        if len(threads) < 2:
+            continue
+        multi_thread_q += 1
+        ops = sorted(ops, key=lambda o: call[o.id])
+        flips, maxend = 0, -1
+        for o in ops:
+            if call[o.id] > maxend:
+                flips += 1            # everything submitted earlier had finished: the queue went empty -> non-empty
+            e_ = end.get(o.id, 1 << 60)
+            maxend = max(maxend, e_)
+        if flips >= 3:
+            flips_ok = True
+    # a synchronous call that began while another item of the same serialised group was running
+    running = []
+    for o in prog.order:
+        if o.kind in e3.SUBMIT_KINDS and o.id in start:
+            running.append((start[o.id], end.get(o.id, 1 << 60), serial_group(prog, o.a), o))
+    for o in prog.order:
+        if o.kind in e3.SYNC_KINDS and o.id in call:
+            g = serial_group(prog, o.a)
+            c = call[o.id]
+            if any(s < c < e_ and g2 == g and o2 is not o and (g is not None or o2.a == o.a) for s, e_, g2, o2 in running):
+                waiter = True
+                break
+    return flips_ok, waiter, multi_thread_q
